@@ -595,6 +595,17 @@ Proof.
   destruct (locked s); intros H; inv H; auto. apply Inv_add_account; auto.
 Qed.
 
+Lemma Inv_new_raw_account sc n s s' r : Inv s -> do_new_raw_account sc n s = (s', r) -> Inv s'.
+Proof.
+  intros HI. unfold do_new_raw_account. destruct (watch s); [intros H; inv H; auto|].
+  destruct (locked s); [intros H; inv H; auto|].
+  destruct (alookup pair_eqb (sc, n) (d_accts (sd s))); intros H; inv H; auto.
+  apply (Inv_same_mem s); auto. simpl. apply dext_app.
+Qed.
+
+Lemma Inv_new_scope s s' r : Inv s -> do_new_scope s = (s', r) -> Inv s'.
+Proof. intros HI. unfold do_new_scope. destruct (negb (watch s) && locked s); intros H; inv H; auto. Qed.
+
 Lemma Inv_new_watch_account sc s s' r : Inv s -> do_new_watch_account sc s = (s', r) -> Inv s'.
 Proof. intros HI H; inv H. apply Inv_add_account; auto. Qed.
 
@@ -1100,6 +1111,8 @@ Proof.
   - eapply Inv_change_priv; eauto.
   - eapply Inv_change_pub; eauto.
   - eapply Inv_new_account; eauto.
+  - eapply Inv_new_raw_account; eauto.
+  - eapply Inv_new_scope; eauto.
   - eapply Inv_new_watch_account; eauto.
   - eapply Inv_acct_props; eauto.
   - eapply Inv_next_addr; eauto.
@@ -1251,6 +1264,18 @@ Proof.
   destruct (watch s); [split; [right|]; reflexivity|].
   destruct HL as [HL|HL]; [|discriminate]. rewrite HL. split; [left|]; reflexivity.
 Qed.
+
+Lemma ac_new_raw_account sc n s :
+  locked s = true \/ watch s = true ->
+  lockerr (snd (do_new_raw_account sc n s)) /\ fst (do_new_raw_account sc n s) = s.
+Proof.
+  intros HL. unfold do_new_raw_account.
+  destruct (watch s); [split; [right|]; reflexivity|].
+  destruct HL as [HL|HL]; [|discriminate]. rewrite HL. split; [left|]; reflexivity.
+Qed.
+
+Lemma ac_new_scope s : locked s = true -> watch s = false -> do_new_scope s = (s, RLocked).
+Proof. intros HL HW. unfold do_new_scope. rewrite HL, HW. reflexivity. Qed.
 
 Lemma ac_import_priv_locked sc n s :
   locked s = true -> watch s = false -> do_import_priv sc n s = (s, RLocked).
@@ -1441,6 +1466,8 @@ Proof.
   - unfold do_lock. dmatch; intros H; inv H; auto.
   - unfold do_change_pub. dmatch; intros H; inv H; auto.
   - unfold do_new_account. dmatch; intros H; inv H; auto.
+  - unfold do_new_raw_account. dmatch; intros H; inv H; auto.
+  - unfold do_new_scope. dmatch; intros H; inv H; auto.
   - unfold do_new_watch_account. intros H; inv H; auto.
   - unfold do_acct_props. destruct (load_acct F sc acct s) as [[s1 ai]|] eqn:E; intros H; inv H; auto.
     destruct (load_acct_spec _ _ _ _ _ _ E) as (-> & _); auto.
@@ -1552,6 +1579,9 @@ Definition access_control_statement (F : facts) : Prop :=
   (forall kt, kt <> CKPub -> step F s (OpDecrypt kt) = (s, RLocked) /\ step F s (OpEncrypt kt) = (s, RLocked)) /\
   (* account creation *)
   (forall sc, lockerr (snd (step F s (OpNewAccount sc))) /\ fst (step F s (OpNewAccount sc)) = s) /\
+  (forall sc n, lockerr (snd (step F s (OpNewRawAccount sc n))) /\ fst (step F s (OpNewRawAccount sc n)) = s) /\
+  (* a new key scope needs the master HD private key (a watching-only manager creates public-only scopes) *)
+  (watch s = false -> step F s OpNewScope = (s, RLocked)) /\
   (* key import: refused while locked; on a watching-only manager only the public key is kept *)
   (forall sc n, (watch s = false -> step F s (OpImportPriv sc n) = (s, RLocked)) /\
      (forall s', watch s = true -> step F s (OpImportPriv sc n) = (s', ROk) ->
@@ -1586,6 +1616,9 @@ Proof.
   - apply ac_crypt; assumption.
   - apply ac_new_account; exact HL.
   - apply ac_new_account; exact HL.
+  - apply ac_new_raw_account; exact HL.
+  - apply ac_new_raw_account; exact HL.
+  - intros HW. destruct HL as [HL|HL]; [|congruence]. apply ac_new_scope; assumption.
   - intros HW. destruct HL as [HL|HL]; [|congruence]. apply ac_import_priv_locked; assumption.
   - eapply ac_import_priv_watch; eauto.
   - eapply ac_import_priv_watch; eauto.
@@ -1854,6 +1887,8 @@ Proof.
   - unfold do_change_priv. dmatch; intros H; inv H; try apply grows_refl; apply grows_same; reflexivity.
   - unfold do_change_pub. dmatch; intros H; inv H; try apply grows_refl; apply grows_same; reflexivity.
   - unfold do_new_account. dmatch; intros H; inv H; try apply grows_refl; apply grows_same; reflexivity.
+  - unfold do_new_raw_account. dmatch; intros H; inv H; try apply grows_refl; apply grows_same; reflexivity.
+  - unfold do_new_scope. dmatch; intros H; inv H; apply grows_refl.
   - unfold do_new_watch_account. intros H; inv H. apply grows_same; reflexivity.
   - unfold do_acct_props. destruct (load_acct F sc acct s) as [[s1 ai]|] eqn:E; intros H; inv H; [|apply grows_refl].
     apply grows_same. eapply load_acct_gone; eauto.
